@@ -79,10 +79,11 @@ reg(part('s_all_packedpair', 'src/arch/all/packedpair/mod.rs', 'arch::all::packe
 reg(part('s_generic_packedpair', 'src/arch/generic/packedpair.rs', 'arch::generic::packedpair', **S_OPTS))
 reg(part('s_sse2_packedpair', 'src/arch/x86_64/sse2/packedpair.rs', 'arch::x86_64::sse2::packedpair', **S_OPTS))
 reg(part('s_avx2_packedpair', 'src/arch/x86_64/avx2/packedpair.rs', 'arch::x86_64::avx2::packedpair', **S_OPTS))
+X17 = [[['core', '::', 'iter', '::', 'Rev'], 'crate::vbase::revx::{Rev, RevExt}', 'X17']]
 reg(part('memchr_top', 'src/memchr.rs', 'memchr', cfg='x86_64',
-         # the three `memrchrN_iter` front-ends are `Iterator::rev()` of the double-ended iterators (std adapter, not
-         # ingestible by Verus; X7 turned the trait impls into inherent ones): not extracted
-         drop_items=['fn memrchr_iter', 'fn memrchr2_iter', 'fn memrchr3_iter', 'use core::iter::Rev'], pin_dropped=True, dropped_sha='a55617309e6e89b9'))
+         # X17: the three `memrchrN_iter` front-ends are `Iterator::rev()` of the double-ended iterators; std's `Rev`
+         # adapter is redirected to the prelude's specification of it (vbase::revx: `Rev { iter }`, `rev()` wraps)
+         rewrites=X17))
 # ifunc_residue: hash of the part of `unsafe_ifunc!` that rule X6 replaces (assumption A2), see xform.ifunc_residue_sha
 reg(part('x86_64_memchr', 'src/arch/x86_64/memchr.rs', 'arch::x86_64::memchr', ifunc_residue='b768f0ddac754a21'))
 # ---- X14 variants (iterator-adapter loops desugared to index loops): constructors brought under contract
@@ -108,11 +109,11 @@ reg(part('simd128_packedpair', 'src/arch/wasm32/simd128/packedpair.rs', 'arch::w
 reg(part('aarch64_memchr', 'src/arch/aarch64/memchr.rs', 'arch::aarch64::memchr', cfg='aarch64', simple_macros=['defraw']))
 reg(part('wasm32_memchr', 'src/arch/wasm32/memchr.rs', 'arch::wasm32::memchr', cfg='wasm32', simple_macros=['defraw']))
 reg(part('memchr_top_aarch64', 'src/memchr.rs', 'memchr', cfg='aarch64',
-         drop_items=['fn memrchr_iter', 'fn memrchr2_iter', 'fn memrchr3_iter', 'use core::iter::Rev'], pin_dropped=True, dropped_sha='a55617309e6e89b9'))
+         rewrites=X17))
 reg(part('memchr_top_wasm32', 'src/memchr.rs', 'memchr', cfg='wasm32',
-         drop_items=['fn memrchr_iter', 'fn memrchr2_iter', 'fn memrchr3_iter', 'use core::iter::Rev'], pin_dropped=True, dropped_sha='a55617309e6e89b9'))
+         rewrites=X17))
 reg(part('memchr_top_other', 'src/memchr.rs', 'memchr', cfg='other',
-         drop_items=['fn memrchr_iter', 'fn memrchr2_iter', 'fn memrchr3_iter', 'use core::iter::Rev'], pin_dropped=True, dropped_sha='a55617309e6e89b9'))
+         rewrites=X17))
 reg(part('memmem_mod', 'src/memmem/mod.rs', 'memmem', keep_derives=['Clone', 'Copy', 'Default']))
 reg(part('memmem_searcher', 'src/memmem/searcher.rs', 'memmem::searcher',
          only_items=['struct SearcherRev', 'enum SearcherRevKind', 'impl SearcherRev', 'enum PrefilterConfig',
